@@ -23,6 +23,9 @@ package rlwe
 // source basis (by inspection of ring/basis_extension.go), so a chain of more than 32 moduli indexes
 // them out of range (ModUpQtoP from Q, e.g. in the scale-invariant multiplication)
 //@   ensures implies(result == nil, len(q) <= 32 && len(p) <= 32)
+// Q and P are coprime (the basis extension inverts P modulo every q_i and Q modulo every p_j): no
+// prime of P is a prime of Q (finding F24)
+//@   ensures implies(result == nil, forall(a, 0, len(p), forall(b, 0, len(q), p[a] != q[b])))
 //@   loop 0 invariant 0 <= i && i <= len(q)
 //@   loop 0 invariant forall(k, 0, i, q[k] < 1<<61)
 //@   loop 1 invariant 0 <= i && i <= len(q)
@@ -31,6 +34,10 @@ package rlwe
 //@   loop 2 invariant forall(k, 0, i, p[k] < 1<<62)
 //@   loop 3 invariant 0 <= i && i <= len(p)
 //@   loop 3 invariant forall(k, 0, i, ring.isprime(p[k]))
+//@   loop 4 invariant 0 <= i && i <= len(p)
+//@   loop 4 invariant forall(a, 0, i, forall(b, 0, len(q), p[a] != q[b]))
+//@   loop 5 invariant 0 <= j && j <= len(q)
+//@   loop 5 invariant forall(b, 0, j, p[i] != q[b])
 
 //@ func checkSizeParams
 //@   property C19
